@@ -11,6 +11,7 @@ import (
 	"encoding/json"
 	"errors"
 	"fmt"
+	"os"
 	"reflect"
 	"regexp"
 	"runtime"
@@ -21,6 +22,8 @@ import (
 	sio "github.com/karagenc/socket.io-go"
 	"github.com/karagenc/socket.io-go/parser"
 	jsonparser "github.com/karagenc/socket.io-go/parser/json"
+	"github.com/karagenc/socket.io-go/parser/json/serializer"
+	gojson "github.com/karagenc/socket.io-go/parser/json/serializer/go-json"
 	"github.com/karagenc/socket.io-go/parser/json/serializer/stdjson"
 )
 
@@ -315,7 +318,15 @@ type stepResult struct {
 	decode parser.Decode
 }
 
-var stdJSON = stdjson.New()
+// stdJSON is the serializer under test: the server's default. VERIF_C10_SERIALIZER=gojson selects the
+// optional goccy/go-json binding instead (an experiment outside the committed evidence: its panics would be
+// raised in third-party code).
+var stdJSON = func() serializer.JSONSerializer {
+	if os.Getenv("VERIF_C10_SERIALIZER") == "gojson" {
+		return gojson.New(nil, nil)
+	}
+	return stdjson.New()
+}()
 
 func newParser(maxAttachments int) parser.Parser {
 	return jsonparser.NewCreator(maxAttachments, stdJSON)()
@@ -776,10 +787,10 @@ func templates(L int) []string {
 
 // caseAt maps an index of the case space to its first frame.
 type caseSpace struct {
-	L       int
-	nStr    int
-	tmpl    []string
-	total   int
+	L     int
+	nStr  int
+	tmpl  []string
+	total int
 }
 
 func newCaseSpace(tier string) *caseSpace {
